@@ -13,9 +13,170 @@ Fixpoint rres_match (model : list rres) (obs : list (bspec * option N)) : bool :
   | _, _ => false
   end.
 
+(* ---------------- flow control: driver ops -> model steps ---------------- *)
+(* op codes: 0 W n, 1 D n, 2 X n, 3 G, 4 C *)
+Definition fc_norm (st : fcst) : fcst * fcout :=
+  let '(s1, _) := fc_step st FTake in fc_step s1 FAbort.
+Definition first_ret (a b : fcout) : fcout := match a with FRet _ _ => a | FNone => b end.
+Definition fc_drv_step (st : fcst) (op : N * N) : fcst * fcout :=
+  let '(code, n) := op in
+  let '(s1, o1) := match code with
+                   | 0 => fc_step st (FStart n)
+                   | 1 => fc_step st (FDrain n)
+                   | 2 => fc_step st (FForeign n)
+                   | 3 => fc_step st FDo
+                   | _ => fc_step st FCloseOp
+                   end in
+  let '(s2, o2) := fc_norm s1 in (s2, first_ret o1 o2).
+Definition fwriter_code (w : fwriter) : N := match w with FIdle => 0 | FWait _ => 1 | FGo _ => 2 end.
+Definition fcobs := (N * bool * N * option (N * option N))%type.
+Definition fc_obs_of (st : fcst) (o : fcout) : fcobs :=
+  (fbuf st, ftoken st, fwriter_code (fwr st), match o with FRet n e => Some (n, e) | FNone => None end).
+Definition fcobs_eqb (a b : fcobs) : bool :=
+  let '(a1, a2, a3, a4) := a in let '(b1, b2, b3, b4) := b in
+  (a1 =? b1) && Bool.eqb a2 b2 && (a3 =? b3) &&
+  option_eqb (fun x y => (fst x =? fst y) && oerr_eqb (snd x) (snd y)) a4 b4.
+Fixpoint fc_drv (st : fcst) (ops : list (N * N)) (obs : list fcobs) : bool :=
+  match ops, obs with
+  | [], [] => true
+  | op :: r, ob :: r' => let '(s1, o) := fc_drv_step st op in fcobs_eqb (fc_obs_of s1 o) ob && fc_drv s1 r r'
+  | _, _ => false
+  end.
+
+(* ---------------- hbConn queue under a schedule ---------------- *)
+(* ops: true = recvLoop handles one message, false = the reader's Read.
+   observed per op: kind 0 none / 1 blocked / 2 got / 3 ErrClosed *)
+Fixpoint hbq_match (os : list hbout) (ops : list bool) (obs : list (N * bspec * option N)) : bool :=
+  match os, ops, obs with
+  | [], [], [] => true
+  | o :: os', op :: ops', (k, d, e) :: obs' =>
+      (if op then true
+       else match o with
+            | HBlocked => k =? 1
+            | HGot (md, me) => (k =? 2) && bspec_matches d md && oerr_eqb me e
+            | HErrClosed => k =? 3
+            | HNone => false
+            end) && hbq_match os' ops' obs'
+  | _, _, _ => false
+  end.
+
+(* ---------------- watchdog ---------------- *)
+(* hbs k = number of heartbeats that arrive during the k-th sleep of the loop;
+   the result is the index (from 1) of the wake-up at which the loop closes, 0 if it never does *)
+Fixpoint wd_close (st : wst) (hbs : list nat) (tick : N) : N :=
+  match hbs with
+  | [] => 0
+  | n :: r =>
+      let st1 := wrun st (repeat WHb n ++ [WLoop]) in      (* heartbeats, then the check *)
+      if wclosed st1 then tick else wd_close (wstep st1 WLoop) r (tick + 1)
+  end.
+Definition wd_model (hbs : list nat) : N := wd_close (wrun winit [WLoop; WLoop]) hbs 1.
+
+(* ---------------- listener registry ---------------- *)
+(* op codes: 0 start, 1 cancel, 2 astep, 3 arecv, 4 acancelled, 5 cstep, 6 csend, 7 ctimeout *)
+Section RegRun.
+  Variable asecl csecl : list N.
+  Variable areal : list bool.
+  Variable nsec : nat.
+  Definition asecs (a : nat) : N := nth a asecl 0.
+  Definition csecs (c : nat) : N := nth c csecl 0.
+  Definition is_real (a : nat) : bool := nth a areal false.
+  Definition hrid (s : N) : N := s.
+  Definition st1 (g : lcfg) (op : lop) : lcfg := lstep hrid asecs csecs g op.
+
+  Definition apc_code (p : apc_t) : N :=
+    match p with A0 => 0 | A1 => 1 | A2 => 2 | A3 => 3 | A4 => 4 | ADone => 5 end.
+  (* shifted by one so that "none" fits in N *)
+  Definition ares_code (r : ares_t) : N :=
+    match r with RNone => 0 | RGot c => 101 + N.of_nat c | RErrDup => 2 | RErrChan => 3 | RCancelled => 4 end.
+
+  (* real acceptors run to completion as soon as they can *)
+  Definition settle1 (g : lcfg) (a : nat) : lcfg :=
+    if is_real a then
+      match apc (acc g a) with
+      | A2 | A3 | A4 => st1 (st1 (st1 (st1 g (LRecv a)) (LCancelled a)) (LA a)) (LA a)
+      | _ => g
+      end
+    else g.
+  Definition settle (g : lcfg) : lcfg := fold_left settle1 (seq 0 (length asecl)) g.
+
+  Definition count_some (f : N -> option nat) : N :=
+    N.of_nat (length (filter (fun i => match f (N.of_nat i) with Some _ => true | None => false end) (seq 0 nsec))).
+
+  (* returns the new configuration and the op's result code (shifted by one) *)
+  Definition reg_drv_step (g : lcfg) (op : N * nat) : lcfg * N :=
+    let '(code, t) := op in
+    match code with
+    | 0 => if is_real t && (apc_code (apc (acc g t)) =? 0)
+           then (settle (st1 (st1 g (LA t)) (LA t)), 1) else (g, 1)
+    | 1 => if is_real t
+           then match apc (acc g t) with
+                | A0 | ADone => (g, 1)
+                | _ => (settle (st1 g (LCancel t)), 1)
+                end
+           else (st1 g (LCancel t), 1)
+    | 2 => if is_real t then (g, 1)
+           else let g' := st1 g (LA t) in (g', 1 + apc_code (apc (acc g' t)))
+    | 3 => if is_real t then (g, 1)
+           else match apc (acc g t) with
+                | A2 => let g' := st1 g (LRecv t) in (g', 1 + apc_code (apc (acc g' t)))
+                | _ => (g, 1)
+                end
+    | 4 => if is_real t then (g, 1)
+           else match apc (acc g t) with
+                | A2 => if acancel (acc g t) then (st1 g (LCancelled t), 4) else (g, 1)
+                | _ => (g, 1)
+                end
+    | 5 => let g' := st1 g (LC t) in
+           match cpc (cns g t) with
+           | C0 => (g', match cserver (cns g' t) with Some s => 1 + s | None => 0 end)
+           | C1 => (g', match cpc (cns g' t) with C2 => 2 | _ => 1 end)
+           | C2 => (g', match cpc (cns g' t) with C3 => 2 | _ => 1 end)
+           | _ => (g, 1)
+           end
+    | 6 => let g' := st1 g (LSend t) in
+           match cpc (cns g t), cpc (cns g' t) with
+           | C3, CSent => (settle g', 2)
+           | _, _ => (g', 1)
+           end
+    | _ => (st1 g (LTimeout t), 1)
+    end.
+
+  Definition regobs := (N * N * N)%type.
+  Fixpoint reg_drv (g : lcfg) (ops : list (N * nat)) (obs : list regobs) : option lcfg :=
+    match ops, obs with
+    | [], [] => Some g
+    | op :: r, (orr, oc, oh) :: r' =>
+        let '(g', rr) := reg_drv_step g op in
+        if (rr =? orr) && (count_some (certs g') =? oc) && (count_some (chans g') =? oh)
+        then reg_drv g' r r' else None
+    | _, _ => None
+    end.
+
+  Fixpoint final_match (g : lcfg) (a : nat) (ares_obs apc_obs : list N) : bool :=
+    match ares_obs, apc_obs with
+    | [], [] => true
+    | r :: rs, p :: ps =>
+        (ares_code (ares (acc g a)) =? r) && (apc_code (apc (acc g a)) =? p) && final_match g (S a) rs ps
+    | _, _ => false
+    end.
+End RegRun.
+
+(* ---------------- key material ---------------- *)
+Definition mat_hkdf (sh sc : bytes) : bytes -> bytes -> nat -> bytes :=
+  fun _ info n => firstn n (if bytes_eqb info label_hello then sh else sc).
+Definition cm_eqb (a : certmat) (d serial : N) (cn : bytes) : bool :=
+  (cm_d a =? d) && (cm_serial a =? serial) && bytes_eqb (cm_cn a) cn.
+
 Inductive case :=
 | CRead (server : bool) (mx : N) (hb : bytes) (raw : list (bspec * option N)) (sizes : list N)
-        (obs : list (bspec * option N)).
+        (obs : list (bspec * option N))
+| CFc (ops : list (N * N)) (obs : list fcobs)
+| CHbq (mx : N) (hb : bytes) (raw : list (bspec * option N)) (ops : list bool) (obs : list (N * bspec * option N))
+| CWd (hbs : list nat) (closed_tick : N)
+| CReg (nsec : nat) (asecl : list N) (areal : list bool) (csecl : list N) (ops : list (N * nat))
+       (obs : list regobs) (ares_obs apc_obs : list N)
+| CMat (sh sc : bytes) (hello : bytes) (cd cserial : N) (ccn : bytes) (sd sserial : N) (scn : bytes).
 
 Definition chk (c : case) : bool :=
   match c with
@@ -25,4 +186,22 @@ Definition chk (c : case) : bool :=
       let '(res, _, _) := if server then server_reads (N.to_nat mx) hb sz s
                           else client_reads (N.to_nat mx) sz s in
       rres_match res obs
+  | CFc ops obs => fc_drv fc_init ops obs
+  | CHbq mx hb raw ops obs =>
+      let '(_, os) := hb_run (N.to_nat mx) hb (hb_init (mk_script raw))
+                             (map (fun b : bool => if b then HRecv else HRead) ops) in
+      hbq_match os ops obs
+  | CWd hbs tick => wd_model hbs =? tick
+  | CReg nsec asecl areal csecl ops obs ares_obs apc_obs =>
+      match reg_drv asecl csecl areal nsec linit ops obs with
+      | Some g => final_match g 0 ares_obs apc_obs
+      | None => false
+      end
+  | CMat sh sc hello cd cserial ccn sd sserial scn =>
+      let h := mat_hkdf sh sc in
+      bytes_eqb (hello_random h []) hello &&
+      match certs_from_seed h [] with
+      | Some (c1, c2) => cm_eqb c1 cd cserial ccn && cm_eqb c2 sd sserial scn
+      | None => false
+      end
   end.
